@@ -54,10 +54,11 @@ AlphaNested == AlphaOf([Query |-> {"o", "on", "lnn"}, T |-> {"sn", "on", "lo", "
 AlphaAbstractF == AlphaOf([Query |-> {"p", "np", "lp", "lu"}, P |-> {"s"}, A |-> {"an"}, U |-> {"__typename"}])
 AlphaPairs == AlphaOf([Query |-> {"o", "on", "s"}, T |-> {"s", "sn"}])
 AlphaMutF == AlphaOf([Mutation |-> {"m1", "m2", "m3", "m4"}, T |-> {"sn"}])
-AlphaArgsF == AlphaOf([Query |-> {"g", "o", "on"}, T |-> {"g", "s"}])
+AlphaArgsF == AlphaOf([Query |-> {"g", "gd", "o", "on"}, T |-> {"g", "s"}])
 \* a nullable variable with a default is allowed at a non-null argument; an explicit null then
 \* fails the argument coercion of that field at run time
-ArgOptsFail == [ f |-> {<<>>}, g |-> {<<ArgV("r", Lit("var", "y"))>>, <<ArgV("r", Lit("int", 2))>>} ]
+ArgOptsFail == [ f |-> {<<>>}, g |-> {<<ArgV("r", Lit("var", "y"))>>, <<ArgV("r", Lit("int", 2))>>},
+                 gd |-> {<<ArgV("a", Lit("int", 13))>>, <<ArgV("a", Lit("int", 1))>>, <<ArgV("b", Lit("str", "q")), ArgV("a", Lit("int", 13))>>} ]
 AlphaSched == AlphaOf([Query |-> {"o", "lo", "s"}, T |-> {"s", "o"}])
 AlphaSchedF == AlphaOf([Query |-> {"o", "on", "lnn", "s"}, T |-> {"s", "sn"}])
 AlphaSchedF2 == AlphaOf([Query |-> {"o", "on", "s"}, T |-> {"sn", "s"}])
